@@ -80,6 +80,18 @@ pub struct HipOsStr<'borrow, B>(pub(crate) HipByt<'borrow, B>)
 where
     B: Backend;
 
+/// Verification hooks.
+#[cfg(hipstr_verif)]
+impl<'borrow, B> HipOsStr<'borrow, B>
+where
+    B: Backend,
+{
+    /// Returns the underlying byte string.
+    pub fn verif_bytes(&self) -> &crate::bytes::HipByt<'borrow, B> {
+        &self.0
+    }
+}
+
 impl<'borrow, B> HipOsStr<'borrow, B>
 where
     B: Backend,
